@@ -157,12 +157,8 @@ func (d *dumper) node(n ast.Node) {
 		val := v.Segment.Value(d.src)
 		cjk := false
 		if v.SoftLineBreak() && len(val) != 0 && d.ea != html.EastAsianLineBreaksNone {
-			if sib, ok := n.NextSibling().(*ast.Text); ok && n.NextSibling().Kind() == ast.KindText {
-				if sv := sib.Segment.Value(d.src); len(sv) != 0 {
-					a := util.ToRune(val, len(val)-1)
-					b, _ := utf8.DecodeRune(sv)
-					cjk = html.VerifSoftLineBreak(d.ea, a, b)
-				}
+			if b, ok := firstRuneOf(n.NextSibling(), d.src); ok {
+				cjk = html.VerifSoftLineBreak(d.ea, util.ToRune(val, len(val)-1), b)
 			}
 		}
 		emit(name, hx(val), b2s(v.SoftLineBreak())+b2s(v.HardLineBreak())+b2s(v.IsRaw())+b2s(cjk))
@@ -234,3 +230,28 @@ func DumpTree(root ast.Node, src []byte, ea html.EastAsianLineBreaks, kinds map[
 }
 
 var _ = text.Segment{}
+
+// firstRuneOf: first character of the first non-empty Text/String at or below n in document order
+// (the rune handed to the real softLineBreak decision; the structural part is modelled in Lean).
+func firstRuneOf(n ast.Node, src []byte) (rune, bool) {
+	if n == nil {
+		return 0, false
+	}
+	var v []byte
+	switch t := n.(type) {
+	case *ast.Text:
+		v = t.Segment.Value(src)
+	case *ast.String:
+		v = t.Value
+	}
+	if len(v) != 0 {
+		r, _ := utf8.DecodeRune(v)
+		return r, true
+	}
+	for c := n.FirstChild(); c != nil; c = c.NextSibling() {
+		if r, ok := firstRuneOf(c, src); ok {
+			return r, true
+		}
+	}
+	return 0, false
+}
